@@ -72,6 +72,9 @@ FORMS = [
     ("TransformImage", "N1"),
     ("TransformImage", "N2shared"),
 ]
+# module APIs with an explicit `axes` argument: every Axes value, target points handed in those axes
+MODULE_AXES = ["grid", "world", "cube", "cube_corners"]
+FORMS += [(f"{m}(axes={ax})", "N1") for m in ("SampleImage", "AlignImage", "TransformImage") for ax in MODULE_AXES]
 
 
 # ---------------------------------------------------------------------------
@@ -285,9 +288,15 @@ def padding_arg(p: str):
     return CONST_PAD if p == "const" else p
 
 
-def run_form(ctx: Ctx, api: str, bform: str, mode: str, padding: str):
-    """Execute one API form; returns (status, value, plan) where plan = [(content item, source idx, target idx)] per
-    output item and value = numpy (N, C, *shape) or exception."""
+def _fingerprint(tensors) -> bytes:
+    return b"|".join(str(t.dtype).encode() + str(tuple(t.shape)).encode() + t.detach().contiguous().numpy().tobytes() for t in tensors)
+
+
+def prepare(ctx: Ctx, api: str, bform: str, mode: str, padding: str):
+    """Build fresh inputs and the receiver of one API form. Returns (plan, do, inputs): plan = [(content item,
+    source idx, target idx)] per output item, do() = one sampling call on the SAME receiver / input objects returning
+    a tensor (N, C, *shape), inputs = every tensor handed to deepali (for the before/after fingerprint)."""
+    from deepali.core.grid import Axes
     from deepali.data import Image, ImageBatch
     from deepali.modules import AlignImage, SampleImage, TransformImage
 
@@ -300,58 +309,83 @@ def run_form(ctx: Ctx, api: str, bform: str, mode: str, padding: str):
         plan = [(0, 0, 0), (1, 1, 0 if api.endswith("(grid)") else 1)]
     t32 = [torch.from_numpy(d.astype(np.float32)) for d in ctx.data]
     pad = padding_arg(padding)
-
-    def call():
-        if api.startswith("Image."):
-            im = Image(t32[0], ctx.src_real[0])
-            if api == "Image.sample(grid)":
-                r = im.sample(ctx.tgt_real[0], mode=mode, padding=pad)
-                return r, r.tensor().unsqueeze(0)
-            pts = ctx.pts(0, 0)
-            co = cube_coords(ctx.src[0], pts, ctx.sac).reshape(tuple(int(v) for v in ctx.tgt[0].n[::-1]) + (D,))
-            r = im.sample(torch.from_numpy(co.astype(np.float32)), mode=mode, padding=pad)
-            return r, r.unsqueeze(0)
-        grids = [ctx.src_real[p[1]] for p in plan]
-        data = torch.stack([t32[p[0]] for p in plan])
-        if api.startswith("ImageBatch."):
-            b = ImageBatch(data, grids)
-            if api == "ImageBatch.sample(grid)":
-                r = b.sample(ctx.tgt_real[0], mode=mode, padding=pad)
-                return r, r.tensor()
-            if api == "ImageBatch.sample(grids)":
-                r = b.sample([ctx.tgt_real[p[2]] for p in plan], mode=mode, padding=pad)
-                return r, r.tensor()
-            cos = []
-            for c_, si, ti in plan:
-                co = cube_coords(ctx.src[si], ctx.pts(si, ti), ctx.sac).reshape(tuple(int(v) for v in ctx.tgt[ti].n[::-1]) + (D,))
-                cos.append(co)
-            if bform == "N2shared":
-                cos = cos[:1]  # (1, ..., D) broadcast to both images
-            r = b.sample(torch.from_numpy(np.stack(cos).astype(np.float32)), mode=mode, padding=pad)
-            return r, r
-        cls = {"SampleImage": SampleImage, "AlignImage": AlignImage, "TransformImage": TransformImage}[api]
-        mod = cls(ctx.tgt_real[0], ctx.src_real[0], sampling=mode, padding=pad)
-        if api == "SampleImage":
-            r = mod(ctx.tgt_real[0].coords(), data)
+    tshape = lambda ti: tuple(int(v) for v in ctx.tgt[ti].n[::-1])  # noqa: E731
+    if api.startswith("Image."):
+        im = Image(t32[0], ctx.src_real[0])
+        if api == "Image.sample(grid)":
+            return plan, (lambda: im.sample(ctx.tgt_real[0], mode=mode, padding=pad).tensor().unsqueeze(0)), [t32[0], im.tensor()]
+        co = cube_coords(ctx.src[0], ctx.pts(0, 0), ctx.sac).reshape(tshape(0) + (D,))
+        cot = torch.from_numpy(co.astype(np.float32))
+        return plan, (lambda: im.sample(cot, mode=mode, padding=pad).unsqueeze(0)), [t32[0], im.tensor(), cot]
+    grids = [ctx.src_real[p[1]] for p in plan]
+    data = torch.stack([t32[p[0]] for p in plan])
+    if api.startswith("ImageBatch."):
+        b = ImageBatch(data, grids)
+        if api == "ImageBatch.sample(grid)":
+            return plan, (lambda: b.sample(ctx.tgt_real[0], mode=mode, padding=pad).tensor()), [data, b.tensor()]
+        if api == "ImageBatch.sample(grids)":
+            tg = [ctx.tgt_real[p[2]] for p in plan]
+            return plan, (lambda: b.sample(tg, mode=mode, padding=pad).tensor()), [data, b.tensor()]
+        cos = [cube_coords(ctx.src[si], ctx.pts(si, ti), ctx.sac).reshape(tshape(ti) + (D,)) for _, si, ti in plan]
+        if bform == "N2shared":
+            cos = cos[:1]  # (1, ..., D) broadcast to both images
+        cot = torch.from_numpy(np.stack(cos).astype(np.float32))
+        return plan, (lambda: b.sample(cot, mode=mode, padding=pad)), [data, b.tensor(), cot]
+    base, _, rest = api.partition("(axes=")
+    axes = rest[:-1] if rest else None
+    cls = {"SampleImage": SampleImage, "AlignImage": AlignImage, "TransformImage": TransformImage}[base]
+    kw = {} if axes is None else {"axes": Axes(axes)}
+    mod = cls(ctx.tgt_real[0], ctx.src_real[0], sampling=mode, padding=pad, **kw)
+    if base == "SampleImage":
+        if axes is None:
+            pts_t = ctx.tgt_real[0].coords()
         else:
-            r = mod(None, data)
-        return r, r
+            # target sample points expressed in the requested axes by the reference (float64 -> float32)
+            t = ctx.tgt[0]
+            p = t.map_points(ri.grid_indices(t.n), rg.GRID, axes).reshape(tshape(0) + (D,))
+            pts_t = torch.from_numpy(p.astype(np.float32))
+        return plan, (lambda: mod(pts_t, data)), [data, pts_t]
+    return plan, (lambda: mod(None, data)), [data]
 
-    status, val = guarded(call)
+
+def run_form(ctx: Ctx, api: str, bform: str, mode: str, padding: str, repeat: bool = True):
+    """Execute one API form. Returns (status, value, plan, extra): value = numpy (N, C, *shape) float64 or the
+    exception; extra = {"mutated": bool, "repeat": None | str} from the input fingerprint and the repeated call."""
+    status, prep = guarded(prepare, ctx, api, bform, mode, padding)
+    if status == "raises":
+        return status, prep, [(0, 0, 0)], None
+    plan, do, inputs = prep
+    fp0 = _fingerprint(inputs)
+    status, val = guarded(do)
     if status == "raises":
         return status, val, plan, None
-    obj, ten = val
-    return status, ten.detach().numpy().astype(np.float64), plan, obj
+    extra = {"mutated": _fingerprint(inputs) != fp0, "repeat": None}
+    first = val.detach().clone()
+    if repeat:
+        st2, val2 = guarded(do)
+        if st2 == "raises":
+            extra["repeat"] = "second call raises " + exc_text(val2)
+        elif val2.shape != first.shape or not torch.equal(val2.detach(), first):
+            d = float((val2.detach().double() - first.double()).abs().max()) if val2.shape == first.shape else float("nan")
+            extra["repeat"] = f"second call on the same object differs from the first by {d:.4g}"
+    return status, first.numpy().astype(np.float64), plan, extra
 
 
 def judge_form(ctx: Ctx, api, bform, mode, padding, acc: Acc = None):
     """Returns list of (kind, detail); updates counters of acc when given."""
     out = []
-    status, val, plan, obj = run_form(ctx, api, bform, mode, padding)
+    status, val, plan, extra = run_form(ctx, api, bform, mode, padding)
     if acc is not None:
-        acc.trans()
+        acc.trans(2)
     if status == "raises":
         return [("raises=" + type(val).__name__, exc_text(val))], None
+    if acc is not None:
+        acc.subs["input-fingerprint"] += 1
+        acc.subs["repeat-call"] += 1
+    if extra["mutated"]:
+        out.append(("input-mutated", "the caller's image / coordinate tensors were modified in place by the sampling call"))
+    if extra["repeat"]:
+        out.append(("repeat-call", extra["repeat"]))
     N = len(plan)
     exp_shape = lambda ti: tuple(int(v) for v in ctx.tgt[ti].n[::-1])  # noqa: E731
     C = ctx.data[0].shape[0]
@@ -405,7 +439,7 @@ def judge_form(ctx: Ctx, api, bform, mode, padding, acc: Acc = None):
 def coords_vs_grid(ctx: Ctx, bform, mode, padding, val_coords):
     """sample(coords) == sample(grid the coords came from) (relational clause of the statement)."""
     api = "ImageBatch.sample(grids)" if bform != "N1" else "ImageBatch.sample(grid)"
-    status, val, plan, _ = run_form(ctx, api, bform, mode, padding)
+    status, val, plan, _ = run_form(ctx, api, bform, mode, padding, repeat=False)
     if status == "raises":
         return []  # reported by the grid form itself
     if val.shape != val_coords.shape:
